@@ -6,7 +6,9 @@ Decided (see DESIGN.md section 3, C01):
          BoundRoute(...); every normal path of BoundRoute.__init__ passes check_middlewares and
          make_middleware_chain, whose result is the only value ever stored in _execute, which is the
          callable execute() injects into; the preprovided set is url | builtins | resources;
-  R01.b  unresolved => NameError (three make_chain results, two 'next' tests);
+  R01.b  unresolved => NameError (three make_chain results, two 'next' tests); the NameError is what the caller gets:
+         building its message cannot itself raise (every % / .format gets the number of values it takes -- a tuple
+         operand of run-time length, followed through make_chain's return, is spread over the conversions);
   R01.c  exact set arithmetic of chain_argspec / make_chain (truth tables over symbolic atoms);
   R01.d  per-phase availability sets and pairing of function lists with provides lists;
   R01.e  all consumers of a signature enumerate the same parameters; parameter-kind table;
@@ -229,7 +231,7 @@ def run(rep):
                 'the undocumented cycle check (either outcome allowed by the property)')
     rep.assume('boltons 23.1.1 FunctionBuilder semantics as read from the pinned source')
     rep.rule('R01.a', 'must-pass-through: every construction path binds eagerly and builds the chain')
-    rep.rule('R01.b', 'error discipline: unresolved sets and misplaced next raise NameError before the function returns')
+    rep.rule('R01.b', 'error discipline: unresolved sets and misplaced next raise NameError before the function returns; the message of the NameError is built by total operations (format arity over operand shapes)')
     rep.rule('R01.c', 'truth-table equality of the set arithmetic with the specification')
     rep.rule('R01.d', 'truth-table equality of the per-phase availability sets; pairing table')
     rep.rule('R01.e', 'sibling cross-check of signature accessors; parameter-kind exhaustiveness')
